@@ -38,6 +38,11 @@ def sources(tier, seed, ctx):
                     use_host = (n + m) <= 5 and (n * 7 + m + MODES.index(mode)) % 4 == 0
                     srcs.append({'fn': 'mul', 'n': n, 'm': m, 'mode': mode, 'big': big, 'gen': not use_host,
                                  'host': {'seed': rng.randrange(10**6), 'ni': rng.randint(3, 4), 'ng': rng.randint(3, 6)} if use_host else None})
+    # operand lists shared between calls: the same list object as both operands, then reused
+    for mode in MODES:
+        for big in (False, True):
+            for n in (2, 3):
+                srcs.append({'fn': 'mul-alias', 'n': n, 'mode': mode, 'big': big, 'host': {'seed': rng.randrange(10**6), 'ni': 3, 'ng': 4} if n == 2 else None})
     wide = [(18, 18, 'KARATSUBA'), (20, 20, 'DEFAULT'), (21, 21, 'KARATSUBA'), (24, 15, 'KARATSUBA'), (15, 15, 'POW2_M1')] if tier == 'quick' else \
         [(18, 18, 'KARATSUBA'), (20, 20, 'DEFAULT'), (21, 21, 'KARATSUBA'), (24, 15, 'KARATSUBA'), (40, 40, 'DEFAULT'), (17, 19, 'DADDA'), (16, 16, 'WALLACE'), (15, 15, 'POW2_M1'), (12, 20, 'ALTER')]
     for n, m, mode in wide:
@@ -77,6 +82,24 @@ def record(src):
                 mode_out = 'same'
             checks = [{'op': 'mul', 'a': A.le(a, big), 'b': A.le(b, big), 'out': A.le(res, big), 'outlen': outlen}]
             return A.finish(case, c, pre, rng, res, checks, mode_out, res if mode_out == 'set' else [])
+        except Exception as e:
+            case['exc'] = type(e).__name__
+            return case
+    if src['fn'] == 'mul-alias':
+        n, mode = src['n'], src['mode']
+        case = A.base_case(src, PROP, f'mul-alias-{mode}')
+        try:
+            c, ops = A.make_host(src, 2 * n)
+            pre = project(c)
+            a, b = list(ops[:n]), list(ops[n:])
+            a0, b0 = list(a), list(b)
+            fn = getattr(ar, ADD_FN[mode])
+            r1 = fn(c, a, a, big_endian=big)      # the SAME list object twice: a * a
+            r2 = fn(c, a, b, big_endian=big)      # the list is used again: a * b
+            ol = 2 * n - 1 if n == 1 else 2 * n
+            checks = [{'op': 'mul', 'a': A.le(a0, big), 'b': A.le(a0, big), 'out': A.le(r1, big), 'outlen': ol},
+                      {'op': 'mul', 'a': A.le(a0, big), 'b': A.le(b0, big), 'out': A.le(r2, big), 'outlen': ol}]
+            return A.finish(case, c, pre, rng, list(r1) + list(r2), checks, 'same', [])
         except Exception as e:
             case['exc'] = type(e).__name__
             return case
